@@ -1,3 +1,47 @@
+/* spec_int.h - GLSL 4.20 section 8.8 integer functions (as quoted in glm/integer.hpp), written as
+ * bit-by-bit loops over a value held in u64 with an explicit width n (8..64).  Independent of GLM. */
 #ifndef SPEC_INT_H
 #define SPEC_INT_H
+static inline u64 spec_mask(unsigned n) { return n >= 64 ? ~0ull : ((1ull << n) - 1ull); }
+static inline s64 spec_sx(u64 x, unsigned n) { return n >= 64 ? (s64)x : (s64)((x ^ (1ull << (n - 1))) - (1ull << (n - 1))); }
+static inline int spec_popcount(u64 x, unsigned n) {
+  int c = 0;
+  for (unsigned i = 0; i < n; i++) c += (int)((x >> i) & 1);
+  return c;
+}
+/* index of lowest set bit among the low n bits, -1 if none */
+static inline int spec_lsb_index(u64 x, unsigned n) {
+  int r = -1;
+  for (unsigned i = n; i-- > 0;) if ((x >> i) & 1) r = (int)i;
+  return r;
+}
+/* index of highest set bit among the low n bits, -1 if none */
+static inline int spec_msb_index(u64 x, unsigned n) {
+  int r = -1;
+  for (unsigned i = 0; i < n; i++) if ((x >> i) & 1) r = (int)i;
+  return r;
+}
+/* GLSL findMSB: signed -> for negative values the most significant 0 bit; 0 and -1 give -1 */
+static inline int spec_findMSB(u64 x, unsigned n, int is_signed) {
+  x &= spec_mask(n);
+  if (is_signed && ((x >> (n - 1)) & 1)) return spec_msb_index(~x & spec_mask(n), n);
+  return spec_msb_index(x, n);
+}
+static inline u64 spec_bitreverse(u64 x, unsigned n) {
+  u64 r = 0;
+  for (unsigned i = 0; i < n; i++) r |= ((x >> i) & 1) << (n - 1 - i);
+  return r;
+}
+/* GLSL bitfieldExtract; requires 0 <= offset, 0 <= bits, offset + bits <= n.  Result as n-bit pattern. */
+static inline u64 spec_bitfieldExtract(u64 x, unsigned n, int is_signed, unsigned offset, unsigned bits) {
+  if (bits == 0) return 0;
+  u64 f = (offset >= 64 ? 0 : (x >> offset)) & spec_mask(bits);
+  if (is_signed && ((f >> (bits - 1)) & 1)) f |= ~spec_mask(bits);
+  return f & spec_mask(n);
+}
+static inline u64 spec_bitfieldInsert(u64 base, u64 ins, unsigned n, unsigned offset, unsigned bits) {
+  if (bits == 0) return base & spec_mask(n);
+  u64 m = spec_mask(bits) << offset;
+  return ((base & ~m) | ((ins << offset) & m)) & spec_mask(n);
+}
 #endif
